@@ -112,6 +112,9 @@ pub enum JobKind {
     UniC2S,
     /// server opens a uni stream and writes; client validates
     UniS2C,
+    /// client opens a bidi stream, writes `size` bytes without finishing and then reads until the
+    /// connection fails: an operation that stays pending on a quiescent connection
+    Hang,
 }
 
 #[derive(Clone, Debug)]
@@ -140,6 +143,9 @@ pub struct JobResult {
 
 impl JobResult {
     pub fn complete(&self) -> bool {
+        if self.kind == "Hang" {
+            return self.read_err.is_some() || self.open_err.is_some();
+        }
         self.write_done && self.eof && self.read == self.size && self.bad_at.is_none()
     }
     pub fn to_json(&self) -> Value {
@@ -186,6 +192,7 @@ impl Spec {
                         kind: match j[0].as_str().unwrap_or("") {
                             "UniC2S" => JobKind::UniC2S,
                             "UniS2C" => JobKind::UniS2C,
+                            "Hang" => JobKind::Hang,
                             _ => JobKind::BidiEcho,
                         },
                         size: j[1].as_u64().unwrap_or(0) as usize,
@@ -606,6 +613,36 @@ pub fn run_with(spec: &Spec, hook: Option<NetHook>) -> Outcome {
                         Err(e) => sh.lock().unwrap().jobs[idx].open_err = Some(errkind(&e)),
                     }
                 })),
+                JobKind::Hang => tasks.push(tokio::spawn(async move {
+                    match c.open_bi_stream().await {
+                        Ok(Some((sid, (mut reader, mut writer)))) => {
+                            let key: u64 = sid.into();
+                            sh.lock().unwrap().jobs[idx].sid = Some(key);
+                            let mut buf = vec![0u8; job.size];
+                            for (k, b) in buf.iter_mut().enumerate() {
+                                *b = prf(seed, key, k as u64);
+                            }
+                            if let Err(e) = writer.write_all(&buf).await {
+                                sh.lock().unwrap().jobs[idx].write_err = Some(format!("{e}"));
+                            } else {
+                                sh.lock().unwrap().jobs[idx].wrote = job.size;
+                            }
+                            let shp = sh.clone();
+                            let r = read_prf(seed, key, &mut reader, |n| shp.lock().unwrap().jobs[idx].read = n).await;
+                            let mut g = sh.lock().unwrap();
+                            let j = &mut g.jobs[idx];
+                            j.read = r.0;
+                            j.eof = r.1;
+                            j.bad_at = r.2;
+                            j.read_err = r.3;
+                            j.done_ms = Some(net.now().as_millis() as u64);
+                            drop(g);
+                            drop(writer);
+                        }
+                        Ok(None) => sh.lock().unwrap().jobs[idx].open_err = Some("stream ids exhausted".into()),
+                        Err(e) => sh.lock().unwrap().jobs[idx].open_err = Some(errkind(&e)),
+                    }
+                })),
                 JobKind::UniS2C => {}
             }
         }
@@ -642,6 +679,18 @@ pub fn run_with(spec: &Spec, hook: Option<NetHook>) -> Outcome {
             let _ = t.await;
         }
         sh.lock().unwrap().all_done_ms = Some(net.now().as_millis() as u64);
+        if !spec.clean_close {
+            // failure scenarios: the run lasts until both applications have been told (or the deadline)
+            loop {
+                {
+                    let g = sh.lock().unwrap();
+                    if (g.accepted_conns == 0 || g.server_term.is_some()) && g.client_term.is_some() {
+                        break;
+                    }
+                }
+                tokio::time::sleep(Duration::from_millis(50)).await;
+            }
+        }
         if spec.clean_close {
             // give datagrams / acks a moment, then close
             tokio::time::sleep(Duration::from_millis(200)).await;
